@@ -22,11 +22,11 @@ go build ./... && go test -vet=off -count=1 ./... 2>&1 | tail -5
 s1=${PIPESTATUS[0]}
 cp "$demo" "$dir/zz_seeded_demo_test.go"
 echo "== (2) demo with the change (must FAIL)"
-go test -vet=off -count=1 -run 'Seeded' ./$dir/ 2>&1 | tail -15
+go test $SEED_TESTFLAGS -vet=off -count=1 -run Seeded ./$dir/ 2>&1 | tail -15
 s2=${PIPESTATUS[0]}
 git checkout -q -- .
 echo "== (3) demo without the change (must PASS)"
-go test -vet=off -count=1 -run 'Seeded' ./$dir/ 2>&1 | tail -5
+go test $SEED_TESTFLAGS -vet=off -count=1 -run Seeded ./$dir/ 2>&1 | tail -5
 s3=${PIPESTATUS[0]}
 rm -f "$dir/zz_seeded_demo_test.go"
 echo "RESULT suite=$s1 demo_with=$s2 demo_without=$s3"
